@@ -301,18 +301,21 @@ def r4_cursor_progress(ctx, rep):
         for w in ast.walk(fn):
             if not isinstance(w, ast.While):
                 continue
-            # cursor: the name used as lower bound of the slice that the loop test searches
+            # cursor: the name used as lower bound of the slice that the loop test searches, or as its `pos` argument
             cursors = {sl.slice.lower.id for c in ast.walk(w.test) if quote_search(c) for sl in ast.walk(c)
                        if isinstance(sl, ast.Subscript) and isinstance(sl.slice, ast.Slice) and isinstance(sl.slice.lower, ast.Name)}
+            cursors |= {c.args[1].id for c in ast.walk(w.test) if quote_search(c) and len(c.args) >= 2 and isinstance(c.args[1], ast.Name)}
             if len(cursors) != 1:
                 continue
             cur = cursors.pop()
             n += 1
-            incs = [s_ for s_ in ast.walk(w) if isinstance(s_, ast.AugAssign) and isinstance(s_.op, ast.Add)
-                    and isinstance(s_.target, ast.Name) and s_.target.id == cur]
+            incs = [s_ for s_ in ast.walk(w) if (isinstance(s_, ast.AugAssign) and isinstance(s_.op, ast.Add)
+                                                  and isinstance(s_.target, ast.Name) and s_.target.id == cur) or
+                    (isinstance(s_, ast.Assign) and len(s_.targets) == 1 and isinstance(s_.targets[0], ast.Name) and s_.targets[0].id == cur)]
             ends = [c for i in incs for c in ast.walk(i.value) if isinstance(c, ast.Call) and isinstance(c.func, ast.Attribute)
                     and c.func.attr == "end"]
-            ok = len(incs) == 1 and bool(ends) and incs[0] in w.body
+            lens = [c for i in incs for c in ast.walk(i.value) if isinstance(c, ast.Call) and call_name(c) == "len" and c.args]
+            once = len(incs) == 1 and incs[0] in w.body
             # the increment must be computed on the text *after* substitution (the placeholder), i.e. from a fresh search,
             # not from the match object taken before the replacement
             subs = [a_ for a_ in ast.walk(w) if isinstance(a_, ast.Assign) and any(
@@ -327,14 +330,32 @@ def r4_cursor_progress(ctx, rep):
                     return bool(defs) and bool(subs) and all(d.lineno > max(s_.lineno for s_ in subs) and
                                                               any(quote_search(c) for c in ast.walk(d.value)) for d in defs)
                 return False
-            fresh = ok and all(is_fresh(c.func.value) for c in ends)
-            rep.ob(f"masking loop in {py.qualname(fn)}@{['pre', 'attr', 'bind', 'init'][min(n - 1, 3)]}{n}", ok and fresh,
-                   "the cursor advances by the end of a fresh match on the rewritten text, unconditionally in "
-                   "the loop body" if ok and fresh else
-                   ("the cursor advances by the end of the match taken *before* the literal was replaced by its "
-                    "shorter placeholder: the cursor overshoots and a following literal is skipped (left unmasked)"
-                    if ok else "the cursor is not advanced exactly once per iteration"), py.nloc(w))
-    if n < 3:
+            label = f"masking loop in {py.qualname(fn)}@{['pre', 'attr', 'bind', 'init'][min(n - 1, 3)]}{n}"
+            if once and ends and not lens:
+                fresh = all(is_fresh(c.func.value) for c in ends)
+                rep.ob(label, fresh,
+                       "the cursor advances by the end of a fresh match on the rewritten text, unconditionally in the loop body"
+                       if fresh else
+                       "the cursor advances by the end of the match taken *before* the literal was replaced by its "
+                       "shorter placeholder: the cursor overshoots and a following literal is skipped (left unmasked)", py.nloc(w))
+            elif once and lens:
+                # `cursor = start + len(inserted)`: right only if the length is measured on the text as it was inserted - not on
+                # a replacement *template* whose backslashes were doubled for `sub()`
+                from . import common
+                escaped = []
+                for c in lens:
+                    x = c.args[0]
+                    d = common._closest_def(fn, x.id, incs[0]) if isinstance(x, ast.Name) else x
+                    if d is not None and common._doubles_backslashes(d):
+                        escaped.append(x)
+                rep.ob(label, not escaped,
+                       "the cursor advances by the length of the inserted text" if not escaped else
+                       f"the cursor advances by `len({ast.unparse(escaped[0])})`, the length of the replacement *template* (backslashes "
+                       f"doubled for sub()), which is longer than the text that was inserted: after a literal with backslashes the "
+                       f"cursor overshoots and the next placeholder is never restored", py.nloc(incs[0]))
+            else:
+                rep.ob(label, False, "the cursor is not advanced exactly once per iteration", py.nloc(w))
+    if n < 2:
         raise AnalysisError(f"only {n} QUOTES_RE masking loops found")
 
 
@@ -367,6 +388,72 @@ def r6_memo(ctx, rep):
     common.memo_soundness(ctx, rep, modules=("sourceform", "reader", "utils", "fortran_project"))
 
 
+def r7_diagnostics_printed_literally(ctx, rep):
+    """The diagnostic for a rejected file is printed through a rich `Console`, which interprets `[...]` in its arguments as
+    markup.  Text that comes from the input (file names, offending source lines, exception messages) therefore has to be
+    escaped (`rich.markup.escape`) or printed with `markup=False`; otherwise a `[/x]` in it raises MarkupError *inside the error
+    handler* and the run ends instead of continuing with the next file."""
+    py = ctx.py
+    consoles = set()
+    for mod, tree in py.modules.items():
+        for st in ast.walk(tree):
+            if isinstance(st, ast.Assign) and isinstance(st.value, ast.Call) and call_name(st.value).split(".")[-1] == "Console":
+                consoles |= {t.id for t in st.targets if isinstance(t, ast.Name)}
+    n = 0
+
+    def literal_or_escaped(e: ast.AST, fn) -> bool:
+        if isinstance(e, ast.Constant):
+            return True
+        if isinstance(e, ast.Call) and call_name(e).split(".")[-1] == "escape":
+            return True
+        if isinstance(e, ast.JoinedStr):
+            return all(literal_or_escaped(v.value, fn) for v in e.values if isinstance(v, ast.FormattedValue))
+        if isinstance(e, ast.BinOp) and isinstance(e.op, (ast.Add, ast.Mod)):
+            return literal_or_escaped(e.left, fn) and literal_or_escaped(e.right, fn)
+        if isinstance(e, ast.Name):
+            a_ = fn.args
+            params = {x.arg: d for x, d in zip(reversed(a_.posonlyargs + a_.args), reversed(a_.defaults))}
+            params.update({x.arg: d for x, d in zip(a_.kwonlyargs, a_.kw_defaults) if d is not None})
+            allp = {x.arg for x in a_.posonlyargs + a_.args + a_.kwonlyargs}
+            if e.id in allp and not any(isinstance(st, ast.Assign) and any(isinstance(t, ast.Name) and t.id == e.id for t in st.targets)
+                                        for st in ast.walk(fn)):
+                # a parameter: literal iff every call site passes a literal (or leaves a literal default in place)
+                sites = 0
+                for _m, f2 in py.all_functions():
+                    for c2 in ast.walk(f2):
+                        if isinstance(c2, ast.Call) and call_name(c2).split(".")[-1] == fn.name and f2 is not fn:
+                            sites += 1
+                            try:
+                                given = astq.bind_args(c2, fn).get(e.id)
+                            except Exception:
+                                return False
+                            if given is None:
+                                if not isinstance(params.get(e.id), ast.Constant):
+                                    return False
+                            elif not literal_or_escaped(given, f2):
+                                return False
+                return sites > 0
+            alts = astq.expand_locals(e, fn)
+            return bool(alts) and all(not (isinstance(a, ast.Name) and a.id == e.id) and literal_or_escaped(a, fn) for a in alts)
+        return False
+    for mod, fn in py.all_functions():
+        for c in ast.walk(fn):
+            if not (isinstance(c, ast.Call) and isinstance(c.func, ast.Attribute) and c.func.attr in ("print", "log")
+                    and isinstance(c.func.value, ast.Name) and c.func.value.id in consoles):
+                continue
+            n += 1
+            plain = any(k.arg == "markup" and isinstance(k.value, ast.Constant) and k.value.value is False for k in c.keywords)
+            bad = [a for a in c.args if not literal_or_escaped(a, fn)]
+            ok = plain or not bad
+            rep.ob(f"{py.qualname(fn)}: `{ast.unparse(c.func)}` prints input text literally", ok,
+                   "markup disabled" if plain else "every interpolated text is escaped" if ok else
+                   f"`{ast.unparse(bad[0])[:50]}` reaches rich's markup parser unescaped: a message that contains `[/...]` (a file "
+                   f"name, a quoted source line) raises MarkupError while the parse error of that file is being reported, and the "
+                   f"whole run ends", py.nloc(c))
+    if n < 1:
+        raise AnalysisError("no rich Console output found (anchor vanished)")
+
+
 RULES = [
     RuleSpec("C20.R1", r1_containment, "per-file containment structure", floor=4),
     RuleSpec("C20.R2", r2_no_cross_file_state, "no partial registration, no cross-file mutable state", floor=3),
@@ -374,4 +461,5 @@ RULES = [
     RuleSpec("C20.R4", r4_cursor_progress, "cursor progress in the literal masking loops", floor=2),
     RuleSpec("C20.R5", r5_regex_termination, "parse-path regexes cannot backtrack exponentially", floor=20),
     RuleSpec("C20.R6", r6_memo, "caches are functions of their key", floor=1),
+    RuleSpec("C20.R7", r7_diagnostics_printed_literally, "diagnostics cannot fail on the text they report", floor=1),
 ]
